@@ -17,7 +17,9 @@ VERIF = os.path.dirname(os.path.dirname(os.path.abspath(__file__)))
 SPEC = os.path.join(VERIF, "spec")
 REPO = os.environ.get("VERIF_REPO", "/repo")
 PY = "/venv/bin/python"
-EVIDENCE = os.path.join(VERIF, "evidence")
+# VERIF_EVIDENCE redirects the evidence files: used only when the machinery is tried on a scratch copy of the
+# repository (seeded regressions), so that /verif/evidence always describes runs against /repo itself
+EVIDENCE = os.environ.get("VERIF_EVIDENCE") or os.path.join(VERIF, "evidence")
 REPLAY = os.path.join(EVIDENCE, "replay")
 CACHE = os.path.join(VERIF, ".cache")
 KNOWN = os.path.join(VERIF, "known_findings.jsonl")
